@@ -205,14 +205,20 @@ pub fn run_c09(cx: &Ctx) -> i32 {
             if !facts.refs_valid {
                 return;
             }
-            let pattern = ast::to_pattern(node);
+            // numbered spelling, and relative backreferences \k<-n> where the pattern has any
+            let mut spellings = vec![ast::to_pattern(node)];
+            if facts.has_backref && !facts.has_cond {
+                spellings.push(ast::to_pattern_named(node, ast::Naming::Relative));
+                spellings.push(ast::to_pattern_named(node, ast::Naming::Angle));
+            }
+            for pattern in spellings {
             let re = match engine::compile_with(&pattern, |b| {
                 b.backtrack_limit(5000);
             }) {
                 Ok(r) => r,
                 Err(_) => {
                     t.count("compile_errors", 1);
-                    return;
+                    continue;
                 }
             };
             t.programs += 1;
@@ -278,6 +284,7 @@ pub fn run_c09(cx: &Ctx) -> i32 {
                     t.sample(6, || jobj! {"pattern" => pattern.as_str(), "text" => text.as_str(), "find_iter" => format!("{:?}", fi.items), "space" => tag});
                 }
             }
+            }
         });
         t
     });
@@ -287,7 +294,7 @@ pub fn run_c09(cx: &Ctx) -> i32 {
         t,
         Finish {
             rule: format!(
-                "every pattern of {} x every text over {:?} up to length {} x every offset: is_match <=> find is Some <=> captures is Some; captures_from_pos(t,p).get(0) == find_from_pos(t,p); captures_iter yields exactly the spans find_iter yields, in order (an Err from one entry point must be an Err from its sibling); no reference model involved; non-trivial = (pattern,text) VM-compiled with at least one match",
+                "every pattern of {} (patterns with backreferences also spelled with relative \\k<-n> and named \\k<n> references) x every text over {:?} up to length {} x every offset: is_match <=> find is Some <=> captures is Some; captures_from_pos(t,p).get(0) == find_from_pos(t,p); captures_iter yields exactly the spans find_iter yields, in order (an Err from one entry point must be an Err from its sibling); no reference model involved; non-trivial = (pattern,text) VM-compiled with at least one match",
                 space.describe(), alphabet, max_len
             ),
             exhaustive: true,
